@@ -81,13 +81,18 @@ def decl_value(d):
 
 
 def custom_properties(text):
-    """custom properties defined in top-level :root / html rules (later definitions win)"""
-    props = {}
+    """custom properties defined in top-level :root / html rules, by the CSS cascade: both selectors match the root element,
+    `:root` (pseudo-class, specificity 0,1,0) outranks `html` (type selector, 0,0,1) whatever the source order; among
+    definitions of equal specificity the later one wins; !important is not modelled (the corpus does not use it on custom properties)"""
+    best = {}
+    order = 0
     for sel, decls, depth, _ in walk_rules(parse_sheet(text)):
         if depth == 0 and sel in (':root', 'html'):
+            spec = 10 if sel == ':root' else 1
             for d in decls:
-                if d.name.startswith('--'): props[d.name] = decl_value(d)
-    return props
+                order += 1
+                if d.name.startswith('--') and (d.name not in best or (spec, order) >= best[d.name][0]): best[d.name] = ((spec, order), decl_value(d))
+    return {k: v[1] for k, v in best.items()}
 
 
 _VAR = re.compile(r'^var\(\s*(--[\w-]+)\s*(?:,\s*(.*))?\)$', re.S)
@@ -157,6 +162,7 @@ def parse_stdout(out):
 FIXABLE = ['#888', '#8a8a8a', 'rgb(140, 140, 140)', 'hsl(0, 0%, 55%)', 'gray', '#7B7B7B', '#999999']        # on white: below 4.5, fixable
 OK = ['#000', 'black', 'rgb(20, 20, 20)', '#333333', 'hsl(240, 100%, 20%)', 'navy']
 HARD = ['#ff0', 'yellow', '#fefefe']                                                                   # on white: not fixable in strict mode
+LIGHT = ['#ccc', '#bbb', '#aaa', '#ddd', '#b0b0b0', '#9ac', 'silver']                                   # on white: far below AA; AAA out of reach in default mode while the attempt may cross AA
 INVALID = ['notacolor', '12px', 'inherit', 'rgb(1,2)', 'currentcolor']
 BGS = [None, '#fff', 'white', '#222', 'rgb(250, 250, 250)', '#f0f0f0']
 CARRY = ['@charset "utf-8";', '@import url("a;b}.css");', '@font-face { font-family: "X{}"; src: url(x.woff) }', '@keyframes k { from { color: #888 } to { color: #999 } }',
@@ -171,15 +177,16 @@ def gen_sheets(seed, n):
     rng = random.Random(seed)
     sheets = []
     def colour(kind):
-        return rng.choice({'fix': FIXABLE, 'ok': OK, 'hard': HARD, 'bad': INVALID}[kind])
+        if kind == 'rand': return '#%02x%02x%02x' % (rng.randrange(256), rng.randrange(256), rng.randrange(256))
+        return rng.choice({'fix': FIXABLE, 'ok': OK, 'hard': HARD, 'bad': INVALID, 'light': LIGHT}[kind])
     for idx in range(n):
-        feats = set(); parts = []; root = []
+        feats = set(); parts = []; root = []; redefs = []
         nrules = rng.randrange(1, 4)
         for j in range(nrules):
-            kind = rng.choice(['fix', 'fix', 'ok', 'hard', 'bad'])
+            kind = rng.choice(['fix', 'fix', 'ok', 'hard', 'bad', 'light', 'rand'])
             col = colour(kind); feats.add(f'colour:{kind}')
             bg = rng.choice(BGS)
-            form = rng.choice(['literal', 'literal', 'literal', 'var', 'var-chain', 'var-fallback', 'var-undefined-fallback', 'var-undefined', 'var-shared', 'important', 'repeated', 'root-own', 'vendor-hack'])
+            form = rng.choice(['literal', 'literal', 'literal', 'var', 'var-chain', 'var-fallback', 'var-undefined-fallback', 'var-undefined', 'var-shared', 'important', 'repeated', 'root-own', 'vendor-hack', 'var-redefined'])
             sel = f'.r{idx}_{j}'
             decls = []
             if form == 'literal': decls.append(f'color: {col}')
@@ -190,6 +197,12 @@ def gen_sheets(seed, n):
             elif form == 'var-fallback': root.append(f'--c{j}: {col}'); decls.append(f'color: var(--c{j}, #123456)'); feats.add('var-with-fallback')
             elif form == 'var-undefined-fallback': decls.append(f'color: var(--nope{j}, {col})'); feats.add('var-undefined-with-fallback')
             elif form == 'var-undefined': decls.append(f'color: var(--nope{j})'); feats.add('var-undefined')
+            elif form == 'var-redefined':
+                # the property is defined more than once: `extra` holds further top-level blocks placed before / after the main one
+                decoy = colour(rng.choice(['ok', 'fix', 'light']))
+                how = rng.choice(['same-selector-later-wins', 'root-beats-later-html', 'html-then-root'])
+                root.append(f'--c{j}: {col}'); decls.append(f'color: var(--c{j})'); feats.add('var-redefined:' + how)
+                redefs.append((how, f'--c{j}: {decoy}'))
             elif form == 'var-shared':
                 root.append(f'--shared: {col}'); decls.append('color: var(--shared)'); feats.add('var-shared')
                 parts.append(f'.other{idx}_{j} {{ color: var(--shared); background-color: {rng.choice(["#222", "#fff", "#ddd"])} }}')
@@ -208,13 +221,43 @@ def gen_sheets(seed, n):
         for c in rng.sample(CARRY, rng.randrange(0, 4)): parts.insert(rng.randrange(len(parts) + 1), c); feats.add('carry-through')
         if root:
             rsel = rng.choice([':root', 'html'])
+            if any(h == 'root-beats-later-html' for h, _ in redefs): rsel = ':root'
+            if any(h == 'html-then-root' for h, _ in redefs): rsel = ':root'
             pos = 0 if rng.random() < 0.7 else len(parts)
             parts.insert(pos, f'{rsel} {{ ' + '; '.join(root) + ' }')
             if pos != 0: feats.add('root-after-use')
+            for how, d in redefs:
+                # the main block carries the value in force; the decoy block is placed where the cascade makes it lose
+                if how == 'same-selector-later-wins': parts.insert(pos, f'{rsel} {{ {d} }}')                  # earlier block of the same selector
+                elif how == 'root-beats-later-html': parts.insert(pos + 1, f'html {{ {d} }}')                  # later, lower specificity
+                elif how == 'html-then-root': parts.insert(pos, f'html {{ {d} }}')                             # earlier, lower specificity
         # @charset / @import must stay first if present: keep order as generated (tool must carry them through anyway)
         css = '\n'.join(parts) + '\n'
         sheets.append((f's{idx}.css', css, feats))
     return sheets
+
+
+CORE_SHEETS = [
+    # AAA out of reach in default mode while the best attempt crosses AA (premium failure path); light greys on light backgrounds
+    ('core_light1.css', '.a { color: #ccc; background-color: #fff }\n', {'core', 'colour:light'}),
+    ('core_light2.css', '.a { color: #bbb }\n.b { color: silver; background-color: #f0f0f0 }\n', {'core', 'colour:light'}),
+    ('core_light3.css', '@media (min-width: 1px) { .a { color: #ddd; background-color: white } }\n.b { color: #9ac; background-color: #fff }\n', {'core', 'colour:light', 'nested:1'}),
+    ('core_light4.css', ':root { --x: #ccc }\n.a { color: var(--x); background-color: #fff }\n', {'core', 'colour:light', 'var'}),
+    ('core_light5.css', '.a { color: var(--nope, #bbb); background-color: #fff }\n', {'core', 'colour:light', 'var-undefined-with-fallback'}),
+    # one property defined twice
+    ('core_redef1.css', 'html { --x: #ccc }\nhtml { --x: #888 }\n.a { color: var(--x); background-color: #fff }\n', {'core', 'var-redefined:same-selector-later-wins'}),
+    ('core_redef2.css', ':root { --x: #222 }\nhtml { --x: #ccc }\n.a { color: var(--x); background-color: #fff }\n', {'core', 'var-redefined:root-beats-later-html'}),
+    ('core_redef3.css', 'html { --x: #222 }\n:root { --x: #999 }\n.a { color: var(--x); background-color: #fff }\n', {'core', 'var-redefined:html-then-root'}),
+    # same selector twice, different outcomes; deep nesting
+    ('core_same_sel.css', '.a { color: #000; background-color: #fff }\n@media print { @supports (display: grid) { .a { color: #999; background-color: #fff } } }\n.a { color: #fefefe; background-color: #fff }\n', {'core', 'nested:2'}),
+    ('core_deep.css', '@media (min-width: 1px) { @supports (display: grid) { @media print { .a { color: #8a8a8a; background-color: #fff } } } }\n', {'core', 'nested:3'}),
+]
+ALL_SETTINGS = [tuple(x for x in (*(('--mode', str(m)) if m is not None else ()), *(('--premium',) if pr else ()), *(('--default-bg', bg) if bg else ()))) for m in (None, 0, 1, 2) for pr in (False, True) for bg in (None, '#222')]
+
+
+def core_jobs():
+    """deterministic core: every corner sheet under every (mode, premium, default-bg) combination"""
+    return [(n, c, f, opts) for n, c, f in CORE_SHEETS for opts in ALL_SETTINGS]
 
 
 SETTINGS = [(), ('--mode', '0'), ('--mode', '2'), ('--premium',), ('--default-bg', '#222'), ('--default-bg', 'black', '--mode', '0'), ('--premium', '--mode', '2'), ('--default-bg', 'white')]
